@@ -6,6 +6,16 @@ CLAIMS = {
   'design_ref': 'DESIGN.md section 3 C12',
   'note': 'HMAC is an uninterpreted function of (key, bytes fed); engine encoding of Python semantics (pyvc) is trusted and cross-checked against CPython on every run (bounded differential run reported under coverage.bounded, not counted as proved); SSLv3 "one block" read as pad_length <= block_size; caller strip and sender side: see evidence not_built.',
   'technique': TECH + '; loop invariants with quantifiers; bit-vector mode for ct_* helpers'},
+ 'C01': {
+  'text': 'Per-path inverse lemmas over the real record-protection code: for MAC-then-encrypt (block and stream), encrypt-then-MAC and the three AEAD nonce/AAD constructions (AES-GCM TLS1.2, ChaCha20 TLS1.2, TLS1.3) the receiver function applied to the sender function\'s output returns exactly the payload, for every version, payload length, block/digest/tag size, with both sequence numbers and CBC chaining state staying in step; plus contracts for addPadding, calculateMAC, getSeqNumBytes and the TLS1.3 inner-plaintext de-padding. Partial: fragmentation, read-buffer FIFO, key-block mirror and record-size caps are listed under not_built in the evidence.',
+  'design_ref': 'DESIGN.md section 3 C01',
+  'note': 'cipher objects by assumed interface contract (Dec(Enc(x))=x, Open(Seal(x))=x), HMAC uninterpreted; no two live endpoints are executed; handshake-established key equality is C03/C04',
+  'technique': TECH + '; round-trip scenarios over sender/receiver states'},
+ 'C02': {
+  'text': 'Integrity-binding postconditions on every unprotect path of the real record layer: a record is returned only if the complete MAC (all digest bytes) over the receiver\'s own sequence number, type, version, length and body under the read key compared equal (MtE block via the C12 specification, MtE stream/null, EtM), padding is well formed, and the counter moves exactly once; every other path raises TLSBadRecordMAC/TLSDecryptionFailed before data is returned. Partial: AEAD open() internals are under C09; alert mapping and TLS1.3 header exceptions are not_built.',
+  'design_ref': 'DESIGN.md section 3 C02',
+  'note': 'the step from tag equality to "exactly what the peer sent next" is MAC/AEAD unforgeability (assumed); cipher/HMAC objects abstract',
+  'technique': TECH + '; exceptional postconditions (raises-only-when)'},
 }
 NOT_APPLICABLE = {
  'C07': 'interoperability with OpenSSL: no contract on /repo functions can speak about another implementation\'s behaviour; needs a second implementation executing (see DESIGN.md C07)',
